@@ -1,9 +1,205 @@
-(* C13 — property theorems (placeholder while the pipeline is brought up). *)
-From Coq Require Import ZArith List Bool.
+(* C13 — cancelled or closed channels never block and never deliver.  Property theorems only.
+
+   Model: C13/Model.v — NextPackage as the set of its possible results, the send loop with its context checks, and an
+   interleaving system (reader goroutine, closing goroutine, the peer's logout answer, the logout's timeout) with Go's
+   RWMutex and bounded queues.  It is compared with tds/channel.go + tds/conn.go on scripted schedules on every run.
+   Real time ("promptly", "bounded time"), goroutine leaks and data races are outside Gallina: the harness observes
+   them with watchdogs, goroutine counts and the race detector. *)
+From Coq Require Import ZArith List Bool Lia.
 Import ListNotations.
-From V Require Import Base.Tree C13.Model C13.Spec.
+From V Require Import Base.Tree Base.Bytes C13.Model C13.Spec C13.Proofs C13.ProofsSys.
 Open Scope Z_scope.
 
-Theorem C13_closed_reports : forall s w, n_closed s = true -> next_package s w = [NClosed].
-Proof. intros s w H. unfold next_package. rewrite H. reflexivity. Qed.
-Print Assumptions C13_closed_reports.
+(* (1) Cancellation.  If the passed context or the connection context is done, then for EVERY content of the package
+   queue, every list of packages arriving meanwhile and every content of the error queues, "blocks" is not among the
+   possible results of NextPackage; ... *)
+Theorem C13_cancel_never_blocks : forall s w, (n_ctx s || n_conn s) = true -> ~ In NBlock (next_package s w).
+Proof. exact cancel_never_blocks. Qed.
+
+(* ... and if no error is queued, every possible result is a package — the first queued one, or, the queue being empty,
+   the first to arrive — or an error wrapping the error of a context that is done (without wait also "no package
+   ready"). *)
+Theorem C13_cancel : forall s w r,
+  n_closed s = false -> (n_ctx s || n_conn s) = true -> n_cerr s <= 0 -> n_err s <= 0 ->
+  In r (next_package s w) ->
+  (exists p, r = NPkg p /\ (hd_error (n_q s) = Some p \/ (n_q s = [] /\ hd_error (n_arr s) = Some p))) \/
+  (r = NCtx /\ n_ctx s = true) \/ (r = NConnCtx /\ n_conn s = true) \/ (r = NNoPkg /\ w = false).
+Proof. exact cancel_results. Qed.
+
+(* NextPackageUntil with a done context (nothing arriving, no error queued), for every queue content: with a callback
+   the callback is shown a prefix of the queue and the call ends with a package it was shown or the context's error;
+   without a callback it ends with the final DONE (io.EOF / nil) or the context's error.  It never blocks. *)
+Theorem C13_cancel_until_callback : forall s final stop seen0 inner,
+  quiet s ->
+  exists seen u, until_done (S (length (n_q s))) s final (Some stop) seen0 inner = (seen0 ++ seen, u) /\
+    (exists k, seen = firstn k (n_q s)) /\ ((exists p, u = UPkg p /\ In p seen) \/ ctx_end u).
+Proof. intros s final stop seen0 inner H. apply until_some_ok; [exact H | lia]. Qed.
+
+Theorem C13_cancel_until_drain : forall s final seen0 inner,
+  quiet s ->
+  exists u, until_done (S (length (n_q s))) s final None seen0 inner = (seen0, u) /\ (u = UEof \/ u = UNil \/ ctx_end u).
+Proof. intros s final seen0 inner H. apply until_none_ok; [exact H | lia]. Qed.
+
+(* (2) A send whose context (or the connection's) is done when the loop starts writes no packet and reports the
+   context; in general exactly the packets in front of which the contexts were live are written. *)
+Theorem C13_send_cancelled : forall d pk, d O = true ->
+  fst (send_call false d pk) = [] /\ (pk <> [] -> snd (send_call false d pk) = SCtx).
+Proof.
+  intros d pk H. destruct pk as [|p r].
+  - split; [reflexivity | congruence].
+  - rewrite (send_cancelled d (p :: r) H ltac:(discriminate)). split; [reflexivity | reflexivity].
+Qed.
+
+Theorem C13_send_prefix : forall pk d,
+  exists k, fst (send_call false d pk) = firstn k pk /\ (forall j, (j < k)%nat -> d j = false) /\
+    (snd (send_call false d pk) = SOk /\ k = length pk \/
+     snd (send_call false d pk) = SCtx /\ (k < length pk)%nat /\ d k = true).
+Proof. intros pk d. exact (send_loop_prefix pk O d). Qed.
+
+(* (3) After Close.  Every receive call reports the closed condition, every send call reports it and writes nothing, a
+   second Close reports it; and under EVERY schedule after the channel was marked closed it stays closed and its
+   package queue only loses packages (the drain): the reader's WritePacket returns at its closed check. *)
+Theorem C13_after_close :
+  (forall s w, n_closed s = true -> next_package s w = [NClosed]) /\
+  (forall d pk, send_call true d pk = ([], SClosed)) /\
+  (forall s, closed s = true -> wpend s = false -> wheld s = false -> closer_step (set_c s CStart) = Some (set_c s (CDone 2))) /\
+  (forall F s ls, inv F s -> closed s = true ->
+     closed (exec s ls) = true /\ (pq (exec s ls) = pq s \/ pq (exec s ls) = [])).
+Proof.
+  split; [exact closed_result|]. split; [exact send_closed|]. split.
+  - intros s Hc Hp Hh. unfold closer_step, set_c. cbn [cp wpend wheld closed]. rewrite Hp, Hh, Hc. reflexivity.
+  - intros F s ls. exact (closed_exec F ls s).
+Qed.
+
+(* (4) Conn.Close.  Under every schedule, once Conn.Close has returned (it only does so through Channel.Close,
+   ctxCancel() and conn.Close()) the channel is closed and unregistered, the connection context is done and the
+   transport closed; the reader's loop guard is then false. *)
+Theorem C13_conn_close : forall cap ccap0 k0 rep inc ls,
+  let s := exec (sys0 cap ccap0 k0 true rep inc) ls in
+  cp s = KEnd -> closed s = true /\ registered s = false /\ conn_done s = true /\ tclosed s = true.
+Proof.
+  intros cap ccap0 k0 rep inc ls s E.
+  assert (K : kinv s).
+  { apply kinv_exec. unfold kinv, sys0. cbn. repeat split; try reflexivity; intros H; try discriminate H.
+    destruct H as [H|H]; discriminate H. }
+  destruct K as [K1 [K2 [K3 K4]]]. rewrite E in *. cbn in K1, K2.
+  split; [exact K1|]. split; [exact K2|]. split; [apply K3; right; reflexivity | apply K4; reflexivity].
+Qed.
+
+Theorem C13_reader_guard : forall s, conn_done s = true -> rp s = RTop -> reader_step s = Some (set_r s REnd).
+Proof. intros s H E. unfold reader_step. rewrite E, H. reflexivity. Qed.
+
+(* the reader waiting in Read when the connection is closed: it ends, PROVIDED the connection's error queue has room
+   for the error of the failed read ... *)
+Theorem C13_reader_ends_partial : forall s,
+  conn_done s = true -> tclosed s = true -> rp s = RRead -> incoming s = [] -> cerr s < ccap s ->
+  reader_ended (run_reader 3 s) = true.
+Proof.
+  intros s Hd Ht Er Ei Hc. apply Z.ltb_lt in Hc.
+  assert (E1 : reader_step s = Some (set_r s RPushErr)).
+  { unfold reader_step. rewrite Er, Ei, Ht. reflexivity. }
+  assert (E2 : exists s2, reader_step (set_r s RPushErr) = Some s2 /\ rp s2 = RTop /\ conn_done s2 = true).
+  { unfold reader_step, set_r. cbn [rp cerr ccap]. rewrite Hc. eexists. split; [reflexivity|]. split; [reflexivity | exact Hd]. }
+  destruct E2 as [s2 [E2 [R2 D2]]].
+  assert (E3 : reader_step s2 = Some (set_r s2 REnd)).
+  { unfold reader_step. rewrite R2, D2. reflexivity. }
+  cbn [run_reader]. rewrite E1, E2, E3. reflexivity.
+Qed.
+
+(* ... and does NOT end when the queue is full and nobody reads it (known finding reader-parked-on-full-conn-errch):
+   a state after Conn.Close returned in which nobody can move, for ever, with the reader still there *)
+Example C13_reader_ends_refuted :
+  let s := run_all fuel (set_tfail (run_reader fuel (mkS true [] 4 0 false false false 0 10 false false false RTop [] (CDone 0) true true false false))) in
+  cp s = KEnd /\ conn_done s = true /\ tclosed s = true /\ cerr s = ccap s /\ rp s = RPushErr /\
+  reader_ended s = false /\ (forall l, step s l = None) /\ (forall ls, exec s ls = s).
+Proof.
+  cbv zeta.
+  assert (H : forall l, step (run_all fuel (set_tfail (run_reader fuel (mkS true [] 4 0 false false false 0 10 false false false RTop [] (CDone 0) true true false false)))) l = None).
+  { intros l. destruct l; vm_compute; reflexivity. }
+  repeat split; try (vm_compute; reflexivity). exact H. apply stuck_forever. exact H.
+Qed.
+
+(* (5) Close returns.  A channel of any kind, any queue capacity, any packets on their way, any schedule: PROVIDED no
+   goroutine outside holds the read lock for good (inv 0) and the package queue has room for every package still to come
+   (room), then in every reachable state in which Close (or Conn.Close) has not returned somebody can move, and no run
+   has more moves than the measure of the initial state: every maximal run is finite and ends with Close returned.
+   (The logout's wait is bounded by its one-minute context: its expiry is a move.) *)
+Theorem C13_close_terminates_partial : forall cap ccap0 k0 cc rep inc,
+  0 <= ccap0 -> room (sys0 cap ccap0 k0 cc rep inc) ->
+  (forall ls, closer_done (exec (sys0 cap ccap0 k0 cc rep inc) ls) = false ->
+              exists l s', step (exec (sys0 cap ccap0 k0 cc rep inc) ls) l = Some s') /\
+  (forall ls s', run_eff (sys0 cap ccap0 k0 cc rep inc) ls = Some s' ->
+                 Z.of_nat (length ls) <= measure (sys0 cap ccap0 k0 cc rep inc)).
+Proof.
+  intros cap ccap0 k0 cc rep inc Hc Hroom.
+  assert (Hi : inv 0 (sys0 cap ccap0 k0 cc rep inc)).
+  { unfold inv, sys0. cbn. repeat split; try reflexivity; try lia; intros H; discriminate H. }
+  split.
+  - intros ls Hnd. apply close_progress; [apply inv_exec; exact Hi | apply room_exec; exact Hroom | exact Hnd].
+  - intros ls s' H. pose proof (run_eff_bound ls _ _ H) as Hb.
+    assert (His : inv 0 s').
+    { clear Hb. revert H. generalize (sys0 cap ccap0 k0 cc rep inc) Hi. induction ls as [|l r IH]; intros s0 Hi0 H.
+      - cbn in H. inversion H; subst. exact Hi0.
+      - cbn [run_eff] in H. destruct (step s0 l) as [s1|] eqn:E; [|discriminate]. exact (IH s1 (inv_step 0 s0 l s1 Hi0 E) H). }
+    pose proof (measure_nonneg 0 s' His). lia.
+Qed.
+
+(* The full statement "in every schedule Close reaches its end" is FALSE of the model of the current code: *)
+(* (a) known finding close-blocks-on-full-rx-queue: a logical channel, capacity 1, two packages sent by the server and
+   not consumed: the reader parks on the full queue holding the read lock, Close waits for the write lock for ever *)
+Example C13_close_terminates_refuted :
+  let s := run_all fuel (run_reader fuel (sys0 1 10 false false false [RinPkt true [0]; RinPkt true [1]])) in
+  closer_done s = false /\ cp s = CLockAcq /\ rp s = RHold [1] /\ rd s = 1 /\ pq s = [0] /\
+  (forall l, step s l = None) /\ (forall ls, closer_done (exec s ls) = false).
+Proof.
+  cbv zeta.
+  assert (H : forall l, step (run_all fuel (run_reader fuel (sys0 1 10 false false false [RinPkt true [0]; RinPkt true [1]]))) l = None).
+  { intros l. destruct l; vm_compute; reflexivity. }
+  repeat split; try (vm_compute; reflexivity). exact H.
+  intros ls. rewrite (stuck_forever _ H ls). vm_compute. reflexivity.
+Qed.
+
+(* (b) known finding close-waits-for-consumer: a goroutine parked in NextPackage(ctx, wait) with a live context holds the
+   read lock (rd = 1 from outside the system); Close announces its Lock and waits for ever, although the queue is
+   empty and the peer is silent *)
+Example C13_close_waits_for_consumer_refuted :
+  let s := run_all fuel (mkS false [] 4 1 false false true 0 10 false false false RTop [] CStart false false false false) in
+  closer_done s = false /\ cp s = CLockAcq /\ rd s = 1 /\ wpend s = true /\
+  (forall l, step s l = None) /\ (forall ls, closer_done (exec s ls) = false).
+Proof.
+  cbv zeta.
+  assert (H : forall l, step (run_all fuel (mkS false [] 4 1 false false true 0 10 false false false RTop [] CStart false false false false)) l = None).
+  { intros l. destruct l; vm_compute; reflexivity. }
+  repeat split; try (vm_compute; reflexivity). exact H.
+  intros ls. rewrite (stuck_forever _ H ls). vm_compute. reflexivity.
+Qed.
+(* ... and once that goroutine's context is cancelled (it returns and releases the read lock) Close finishes *)
+Example C13_close_after_consumer_cancel :
+  let s := run_all fuel (mkS false [] 4 1 false false true 0 10 false false false RTop [] CStart false false false false) in
+  closer_done (run_all fuel (release s)) = true.
+Proof. vm_compute. reflexivity. Qed.
+
+(* non-vacuity of (5): channel 0, capacity 4, three packages on their way, the peer answers the logout: the hypotheses
+   hold and the round-robin schedule ends with Close returned *)
+Example C13_close_terminates_example :
+  let s0 := sys0 4 10 true true true (done_packets 3) in
+  room s0 /\ closer_done (run_all fuel s0) = true /\ cp (run_all fuel s0) = KEnd /\ reader_ended (run_all fuel s0) = true.
+Proof. cbv zeta. split; [unfold room; vm_compute; discriminate|]. vm_compute. repeat split; reflexivity. Qed.
+
+Example C13_cancel_example :
+  next_package (mkN false [] [7] 0 0 true false) true = [NCtx; NPkg 7] /\
+  next_package (mkN false [5; 6] [7] 3 2 true true) true = [NPkg 5] /\
+  next_package (mkN false [] [] 0 0 false false) true = [NBlock].
+Proof. vm_compute. repeat split; reflexivity. Qed.
+
+Print Assumptions C13_cancel_never_blocks.
+Print Assumptions C13_cancel.
+Print Assumptions C13_cancel_until_callback.
+Print Assumptions C13_cancel_until_drain.
+Print Assumptions C13_send_cancelled.
+Print Assumptions C13_send_prefix.
+Print Assumptions C13_after_close.
+Print Assumptions C13_conn_close.
+Print Assumptions C13_reader_guard.
+Print Assumptions C13_reader_ends_partial.
+Print Assumptions C13_close_terminates_partial.
